@@ -134,6 +134,31 @@ def fixed_models():
     return out
 
 
+def _nodes(fx):
+    yield fx
+    k = fx[0]
+    subs = fx[2] if k == 'app' else fx[1:] if k == 'if' else fx[1] if k in ('and', 'or', 'fail') else ()
+    for x in subs:
+        yield from _nodes(x)
+
+
+def float_text_hidden(wb, ops):
+    """The text form of a float under `&` is not modelled: the model writes a marker text instead (FLOAT_TEXT), and a
+    result that shows the marker is not compared.  The marker does not show when the text is consumed by `=` / `<` /
+    a truth test (two different floats then look equal to the model).  True = that can have happened in this
+    workbook after these operations: some formula concatenates, and a float is around (a float constant, a float
+    set by the history, a division).  Only consulted when real and model differ."""
+    fxs = [c[1] for c in wb['cells'].values() if isinstance(c, tuple) and c and c[0] == 'f']
+    nodes = [n for fx in fxs for n in _nodes(fx)]
+    if not any(n[0] == 'app' and n[1] == 8 for n in nodes):
+        return False
+    if any(n[0] == 'app' and n[1] == 3 for n in nodes) or any(n[0] == 'lit' and isinstance(n[1], float) for n in nodes):
+        return True
+    if any(isinstance(c, float) for c in wb['cells'].values()):
+        return True
+    return any(op[0] == 's' and isinstance(op[-1], float) for op in ops)
+
+
 def inputs_of(wb):
     ins = [a for a, c in wb['cells'].items() if not (isinstance(c, tuple) and c and c[0] == 'f')]
     return ins + list(wb.get('extra_inputs', []))
@@ -553,6 +578,9 @@ def compare_with_model(ctx, res, wb, hists, results):
                     ok = same(of[1], mf[1])
                 else:
                     ok = mf[0] == 's'
+                if not ok and float_text_hidden(wb, h[:i + 1]):
+                    res.count('model comparison cut short: text form of a float (consumed by a comparison)')
+                    break
                 if not ok and len(res.drift) < 40:
                     res.drift.append({'workbook': wb_json(wb), 'history': hist_json(h[:i + 1]),
                                       'real': o, 'model': ms})
